@@ -35,7 +35,14 @@ def site_coverage():
         return {}
     hits["verifyTokenWithoutKID accepted"] = nokid_accepted
     hits["accepted under a rule-level Merge"] = merged
-    return {"site_hits": hits, "sites_without_hits": sorted(k for k, v in hits.items() if v == 0)}
+    per_stream = {}
+    for name in ("tokens", "keycache"):
+        try:
+            with open(os.path.join(out, "C05", "obs_%s.jsonl" % name)) as f:
+                per_stream[name] = sum(1 for line in f if line.strip())
+        except OSError:
+            pass
+    return {"site_hits": hits, "sites_without_hits": sorted(k for k, v in hits.items() if v == 0), "per_stream": per_stream}
 
 
 P = {
@@ -48,19 +55,19 @@ P = {
                  "C05_unsigned_rejected", "C05_modified_or_foreign_token_rejected", "C05_alg_confusion_rejected",
                  "C05_merge_precedence", "C05_algorithm_tables", "C05_claim_decoding", "C05_scope_matching",
                  "C05_accepted_scopes_satisfied", "C05_nonvacuous",
-                 "C05_cache_history_stateless", "C05_judged_statelessly_unfold", "C05_cache_history_spec", "C05_cache_pinned_F6_history_stateless", "C05_F6_refuted",
-                 "C05_cache_pinned_history_stateless",
+                 "C05_cache_history_stateless", "C05_judged_statelessly_unfold", "C05_cache_history_spec", "C05_cache_pinned_F6_history_stateless", "C05_F6_pinned_refuted",
+                 "C05_cache_pinned_F4_history_stateless",
                  "C05_F4_pinned_refuted", "C05_cache_transparent", "C05_cache_examples"],
     "streams": [{
         "name": "tokens", "pkg": "./internal/rules/mechanisms/authenticators", "test": "TestVerifC05",
         "overlay": {"internal/rules/mechanisms/authenticators/zz_verif_c05_test.go": "c05/c05_test.go"},
         "eval_module": "Run.Eval_C05", "check_term": "check true true",
-        "n_quick": 1500, "n_thorough": 40000, "findings": {1: "C05-F1", 2: "C05-F2", 3: "C05-F3", 5: "C05-F5"},
+        "n_quick": 1500, "n_thorough": 40000, "findings": {1: "C05-F1", 2: "C05-F2", 3: "C05-F3"},
     }, {
         "name": "keycache", "pkg": "./internal/rules/mechanisms/authenticators", "test": "TestVerifC05Cache",
         "overlay": {"internal/rules/mechanisms/authenticators/zz_verif_c05_test.go": "c05/c05_test.go"},
         "eval_module": "Run.Eval_C05", "check_term": "check_hist true true true true",
-        "n_quick": 500, "n_thorough": 12000, "findings": {1: "C05-F1", 2: "C05-F2", 3: "C05-F3", 4: "C05-F4", 5: "C05-F5", 6: "C05-F6"}, "shard": 150,
+        "n_quick": 500, "n_thorough": 12000, "findings": {1: "C05-F1", 2: "C05-F2", 3: "C05-F3", 4: "C05-F4", 6: "C05-F6"}, "shard": 150,
     }],
     "rule": "a jwt authenticator created by the real type registry from a generated configuration (issuers, audience, scopes "
             "with exact/hierarchic/wildcard strategy, allowed_algorithms, validity_leeway incl. sub-second and negative, "
@@ -114,25 +121,31 @@ P = {
                 "(non-canonical trailing bits give the same token), so 'modification' is read on the decoded bytes",
                 "certificate chain validation of a JWK (pkix.ValidateCertificate, crypto/x509) is an oracle per key: valid / "
                 "invalid by construction (trusted CA, foreign CA, expired, wrong key usage)",
-                "NumericDate out-of-range conversion int64(float64) is modelled as observed on amd64 (MinInt64); values between "
-                "2^53 and 2^63 (float rounding) are not generated; time.Time wrap-around beyond year 292e9 is not modelled",
+                "NumericDate saturation (f16c3cc) is modelled in Z; Go compares `f >= maxNumericDate` in float64 (the constant "
+                "rounds up by ~770 s) and values between 2^53 and 2^63 are not generated; the MinInt64 conversion (as observed on "
+                "amd64) is modelled only for the variant with f16c3cc reverted (fixed_F2 = false)",
                 "the clock is read by the driver before and after Execute (same second, else the case is repeated); "
                 "sub-second leeways are generated so that the nanosecond-precise iat check does not depend on the sub-second clock",
-                "subject id templates are plain member names (gjson paths are not modelled); the attributes template is the default",
-                "key cache (second stream): the cache is modelled as a map (rendered url, kid) -> key that never expires within a "
+                "subject id templates are plain member names, plus one nested path (nested.sub) rendered as a field of its own; "
+                "gjson modifiers and non-string members other than numbers (rendered as their text) are not modelled; the attributes "
+                "template is the default",
+                "key cache (second stream): the cache is modelled as a map (rendered url + rendered templated header values, kid, "
+                "configured cache_ttl) -> key that never expires within a "
                 "history (entry expiry / TTL arithmetic is C10's subject), certificates about to expire (which getCacheTTL refuses "
                 "to cache) are not generated there, mechanisms sharing the cache differ only in validate_jwk (not in trust_store), the endpoint hash "
                 "component of the cache key is constant per authenticator and left out; the memory cache, SHA-256 and the JSON "
                 "round trip of the cached JWK behave as observed"],
     "level_text": "Proof (kernel-checked, no axioms) about a faithful model of jwt_authenticator.go (Execute, WithConfig, verifyToken, "
                   "verifyTokenWithoutKID, getKey, verifyTokenWithKey), oauth2 Expectation.Merge/Assert*, Claims.Validate, claim "
-                  "decoding and the three scope matchers: for all configurations incl. rule-level overrides, all key sets, clocks "
-                  "and tokens, a subject is created exactly when a published, usable key (unique for the token's kid, any if it has "
+                  "decoding and the three scope matchers: for all configurations incl. rule-level overrides, all key sets, all clocks "
+                  "meeting sane_clock and all tokens other than those with exp = -62135596800 (open finding C05-F3), a subject is "
+                  "created only when - and, provided the payload is a JSON object and the key-set endpoint answers, exactly when - a published, usable key (unique for the token's kid, any if it has "
                   "none) verifies the signature, declares the token's allowed and supported alg, the issuer is trusted, an expected "
                   "audience is present, the required scopes match, now lies in [nbf - leeway, exp + leeway) and iat is not in the "
                   "future, and the subject id is the configured member of those verified claims (soundness + completeness against "
-                  "an independently written specification); unsigned tokens, tokens no published key verifies, and algorithm "
-                  "confusion are rejected unconditionally; Merge precedence rule > mechanism > metadata. For histories of requests "
+                  "an independently written specification); unsigned tokens, tokens no published key verifies (oracle hypothesis), "
+                  "and an alg that no published key declares or that is not allowed are rejected for every clock and variant; HS* "
+                  "over public material of a key that itself declares HS* (with HS* allowed) rests on the signature oracle; Merge precedence rule > mechanism > metadata. For histories of requests "
                   "against one authenticator with its JWK cache (templated key-set URL over the unverified issuer, key sets "
                   "changing in between) every answer equals the cache-less answer against the key set that is or was published at "
                   "the request's own rendered URL, the present one when the token has no kid or the cache is off - a cached key "
@@ -142,19 +155,21 @@ P = {
                   "strategies are proved equal to declarative relations stated in the specification (C05_claim_decoding, "
                   "C05_scope_matching). Two deviations found "
                   "by the model (exp <= 0 never expired; nbf/iat >= 2^63 wrapped to 'not set') were repaired by fix: commits "
-                  "a3a89b7 and f16c3cc; the theorem is about the repaired code, the former behaviour is kept as "
-                  "C05_pinned_iff_spec / C05_F1_pinned_refuted / C05_F2_pinned_refuted. Two more, found in the audit round, were "
+                  "a3a89b7 and f16c3cc; the theorem is about the repaired code; the code as it is with these two commits reverted "
+                  "(later repairs kept; not a state /repo was ever in) is kept as C05_pinned_iff_spec / C05_F1_pinned_refuted / "
+                  "C05_F2_pinned_refuted. Two more, found in the audit round, were "
                   "repaired by d20d7cd (C05-F4: a cached JWK was reused without validation by a mechanism that validates JWK "
-                  "certificates after a laxer one sharing endpoint and cache had stored it; pinned: C05_cache_pinned_history_stateless, "
-                  "C05_F4_pinned_refuted) and d55629a (C05-F5: with no issuers configured and metadata without issuer a token "
+                  "certificates after a laxer one sharing endpoint and cache had stored it; pinned, i.e. with d20d7cd and 4a30678 reverted and later repairs kept: "
+                  "C05_cache_pinned_F4_history_stateless, C05_F4_pinned_refuted) and d55629a (C05-F5: with no issuers configured and metadata without issuer a token "
                   "without iss was accepted; the model has the repair, C05_F5_fixed). C05-F6, found when the keycache stream got "
                   "header templates (seeded round 4), was repaired by 4a30678: a {{ .TokenIssuer }} template in a jwks_endpoint "
                   "HEADER did not reach the key-cache key, so issuers behind one url shared entries per kid (cross-issuer forgery "
-                  "after the other issuer's key was cached); pinned: C05_cache_pinned_F6_history_stateless and the witness about "
-                  "the old keying C05_F6_refuted. One finding stays open with guard, witness and corpus replay: C05-F3 (exp = "
+                  "after the other issuer's key was cached); pinned (4a30678 reverted, later repairs kept): C05_cache_pinned_F6_history_stateless and "
+                  "the witness about the old keying C05_F6_pinned_refuted (in both pinned cache theorems the 'outside the guard' branch "
+                  "is true by the definition of the guard; the content is the url_keyed / uniform_validation branch). One finding stays open with guard, witness and corpus replay: C05-F3 (exp = "
                   "-62135596800, Go's zero time, still counts as absent). The model is tied to the code by running "
-                  "~1500 (quick) / 40000 (thorough) generated and mutated tokens and ~500 / 12000 request histories with a real "
-                  "memory cache per run through the real authenticator against a local JWKS server.",
+                  "1500 (quick) / 40000 (thorough) generated and mutated tokens plus 54 corpus cases and 500 / 12000 request histories "
+                  "plus 9 corpus histories with a real memory cache per run through the real authenticator against a local JWKS server.",
     "level_note": "Partial by construction: signature verification, JSON/JWS parsing and certificate validation are oracles (trusted "
                   "base); the theorem is about the decision logic around them. Error kinds are compared as classes by errors.Is "
                   "(argument / authentication [+assertion | +scope] / communication / internal) but are only recorded: the "
@@ -165,8 +180,16 @@ P = {
                   "claims' is checked on the Go side (attributes deep-equal the sent payload) and has no theorem (the model has one "
                   "claims record per token, the statement would be true by construction, as 'subject id from the claims' is). Cache entry expiry, metadata_endpoint discovery with templates, custom "
                   "jwt_source and subject "
-                  "attribute templates are not exercised (metadata_endpoint with a fixed URL is). Open finding C05-F3 is printed as KNOWN-FINDING on every run; C05-F1, F2, F4, F5, F6 are fixed (reverting any of the "
-                  "five commits is reported as VIOLATION with a replay). Reverting 8647e06 (cache_ttl in the cache key, C10-F5) is "
+                  "attribute templates are not exercised (metadata_endpoint with a fixed URL is). Open finding C05-F3 is printed as KNOWN-FINDING on every run; C05-F1, F2, F4, F5, F6 are fixed: reverting "
+                  "a3a89b7, f16c3cc, d20d7cd, d55629a or 4a30678 in a scratch worktree was each run and reported as VIOLATION with a "
+                  "replay (docs/notes/C05.md). Seeded changes: C05-1 and C05-9 were missed in their rounds and are caught since the "
+                  "keycache stream (C05-1, on base abe584c) and its header-render dimension (C05-9, on base e0c0f15) were added; "
+                  "their stored patches no longer apply after 4a30678, which rewrote the lines they touch. Parts of the statement "
+                  "without a theorem, in one place: attributes (Go-side check only); 'every supported key type' (key types exist "
+                  "only in the generator, the model has alg strings and material ids); the key set obtained through "
+                  "metadata_endpoint -> jwks_uri (generator only; in the theorems the key set is a parameter); for histories "
+                  "judged_statelessly admits ANY earlier world of the history rather than the one at fill time and knows no expiry - "
+                  "an upper bound on what the cache may do, weaker than the code. Reverting 8647e06 (cache_ttl in the cache key, C10-F5) is "
                   "reported as 'correspondence broken, no failing input': sharing entries between copies with different ttl is not "
                   "a C05 violation.",
     "extra_coverage": site_coverage,
